@@ -88,20 +88,41 @@ theorem wm_views_agree_history (rules : List Rule) (ops : List Op) :
     WMInv (({ rules := rules } : Engine).run ops).wm :=
   run_pres wminv_pres ops _ wminv_init
 
-/-- `fire_all` executes at most 1000 actions (C07's bound, for this engine's concrete loop). -/
+/-- `fire_all` executes at most 1000 actions (C07's bound, for this engine's concrete loop; after fix-C06b only executed
+activations are counted). -/
 theorem fire_all_bounded (e : Engine) : e.fireAll.2.length ≤ 1000 := by
   have := fireLoop_length C07.incBound e []
   simpa [Engine.fireAll, C07.incBound] using this
 
+/-- … and the skipped (retracted / stale) activations, which are not counted, cannot keep the loop running: every pop removes
+an activation, so the skipping steps run with any fuel of at least the number of pending activations give the same result as
+with exactly that number — the fuel of the inner loop of the model is never what stops it. -/
+theorem fire_all_skips_terminate (e : Engine) (k : Nat) (h : e.ag.acts.length ≤ k) :
+    C07.incSkip firePop Engine.skips k e = C07.incSkip firePop Engine.skips e.ag.acts.length e := by
+  apply C07.incSkip_fuel firePop Engine.skips (fun e => e.ag.acts.length) _ _ k e h
+  · intro s a s' hp
+    simp only [firePop, Prod.mk.injEq] at hp
+    obtain ⟨h1, h2⟩ := hp
+    subst h2
+    exact ((C07.getNext_spec s.ag).some_ a h1).2.2.2.2.2.2
+  · intro s hs
+    have hnil : s.ag.acts = [] := List.eq_nil_of_length_eq_zero hs
+    simp only [firePop]
+    cases hn : s.ag.getNext.1 with
+    | none => rfl
+    | some a =>
+      have := ((C07.getNext_spec s.ag).some_ a hn).2.1
+      rw [hnil] at this; simp at this
+
 /-- the exactness clause for the loop of `fire_all` run with an arbitrary iteration bound `B` (the code: `B = 1000`), under the
-hypothesis that the pending activations plus the rules fit into the bound — see `quiescent_fire_all_exact` for the reading -/
+hypothesis that the rules fit into the bound — see `quiescent_fire_all_exact` for the reading -/
 theorem quiescent_fire_all_exact_bound (B : Nat) (rules : List Rule) (ops touch : List Op)
     (hq : quietRules rules = true) (hn : (rules.map (·.name)).Nodup)
     (hwf : ∀ o ∈ ops ++ touch, o.WF) (ht : ∀ o ∈ touch, o ≠ .fire) :
     let e1 := ({ rules := rules } : Engine).run ops
     let e0 := e1.run touch
     (∀ f ∈ e0.wm.getAllFacts, e1.wm.nextId ≤ f.handle ∨ ∃ d, Op.update f.handle d ∈ touch) →
-    e0.ag.acts.length + rules.length ≤ B →
+    rules.length ≤ B →
     let res := fireLoop B e0 []
     let fired := res.2.map (·.rule)
     fired.Nodup ∧
@@ -109,7 +130,7 @@ theorem quiescent_fire_all_exact_bound (B : Nat) (rules : List Rule) (ops touch 
     (∀ r ∈ rules, r.name ∉ e0.ag.fired →
       (∃ f ∈ e0.wm.getAllFacts, f.ty = r.ty ∧ r.node.eval f.ty f.data = true) → r.name ∈ fired) ∧
     (∀ x ∈ res.2, ∃ r ∈ rules, ∃ f ∈ e0.wm.getAllFacts, x.rule = r.name ∧ x.handle = f.handle ∧ x.data = f.data ∧
-      r.node.eval f.ty f.data = true) ∧
+      f.ty = r.ty ∧ r.node.eval f.ty f.data = true) ∧
     res.1.wm = e0.wm ∧ res.1.ag.acts = [] := by
   intro e1 e0 hfresh hbound res fired
   have hQ := quiet_of hq
@@ -119,8 +140,7 @@ theorem quiescent_fire_all_exact_bound (B : Nat) (rules : List Rule) (ops touch 
   have hc : Compl (fun h => False ∨ e1.wm.nextId ≤ h ∨ ∃ d, Op.update h d ∈ touch) e0 :=
     compl_run hQ touch (fun _ => False) e1 (fun o ho => ⟨ht o ho, hwf o (List.mem_append.2 (Or.inr ho))⟩) hinv1
       (fun _ _ _ _ hS => absurd hS id)
-  obtain ⟨new, h1, P⟩ := fireLoop_exact rules e0.wm hQ hn hinv0.wm hinv0.data B e0 [] rfl hinv0.rules_eq hinv0.ag (by
-    have h2 := List.countP_le_length (p := stale e0.wm rules) (l := e0.ag.acts)
+  obtain ⟨new, h1, P⟩ := fireLoop_exact rules e0.wm hQ hn hinv0.wm hinv0.data B e0 [] rfl hinv0.rules_eq hinv0.ag hinv0.typed (by
     have h3 : unfired rules e0.ag.fired ≤ rules.length := List.length_filter_le _ _
     omega)
   have hnew : res.2 = new := by simpa using h1
@@ -143,13 +163,14 @@ Rule set: any list of single-type rules that are all no-loop and whose actions n
 distinct names.  History: rules are loaded first; then `ops` — ANY calls, of any number (insert / update / retract / reset and
 also earlier `fire_all` calls, even ones that ran into the iteration bound); then `touch` — any calls except `fire_all`
 (insert / update / retract / reset) — such that every fact that is live at the end was inserted or updated during `touch`
-(scope of the clause, DESIGN §6 C06: activations are created by propagation only).  Then, provided the number of pending
-activations plus the number of rules is at most `max_iterations = 1000`, the `fire_all` that follows
+(scope of the clause, DESIGN §6 C06: activations are created by propagation only).  Then, provided there are at most
+`max_iterations = 1000` rules (after fix-C06b only executed activations are counted, and a no-loop rule is executed at most once;
+however many stale or duplicate activations are pending), the `fire_all` that follows
   * fires no rule twice (`Nodup`) and no rule that already fired since the last `reset` (`e0.ag.fired`, the `fired_rules` set),
   * fires EVERY rule that has not fired since the last `reset` and whose node is true on the current contents of some live fact
     of the rule's type,
-  * fires NO OTHER rule: each firing's matched fact is live and the rule's node is true on its current contents, which are the
-    contents the action sees,
+  * fires NO OTHER rule: each firing's matched fact is live, has the rule's type (fix-C06c) and the rule's node is true on its
+    current contents, which are the contents the action sees,
   * leaves working memory unchanged and the agenda empty.
 Contents written by insert/update are maps (one binding per field, as `TypedFacts` is a `HashMap`): `Op.WF`. -/
 theorem quiescent_fire_all_exact (rules : List Rule) (ops touch : List Op)
@@ -158,35 +179,32 @@ theorem quiescent_fire_all_exact (rules : List Rule) (ops touch : List Op)
     let e1 := ({ rules := rules } : Engine).run ops
     let e0 := e1.run touch
     (∀ f ∈ e0.wm.getAllFacts, e1.wm.nextId ≤ f.handle ∨ ∃ d, Op.update f.handle d ∈ touch) →
-    e0.ag.acts.length + rules.length ≤ 1000 →
+    rules.length ≤ 1000 →
     let fired := e0.fireAll.2.map (·.rule)
     fired.Nodup ∧
     (∀ n ∈ fired, n ∉ e0.ag.fired) ∧
     (∀ r ∈ rules, r.name ∉ e0.ag.fired →
       (∃ f ∈ e0.wm.getAllFacts, f.ty = r.ty ∧ r.node.eval f.ty f.data = true) → r.name ∈ fired) ∧
     (∀ x ∈ e0.fireAll.2, ∃ r ∈ rules, ∃ f ∈ e0.wm.getAllFacts, x.rule = r.name ∧ x.handle = f.handle ∧ x.data = f.data ∧
-      r.node.eval f.ty f.data = true) ∧
+      f.ty = r.ty ∧ r.node.eval f.ty f.data = true) ∧
     e0.fireAll.1.wm = e0.wm ∧ e0.fireAll.1.ag.acts = [] :=
   quiescent_fire_all_exact_bound 1000 rules ops touch hq hn hwf ht
 
 /-- **quiescent_fire_all_exact, as an equivalence** for the histories in which the last `reset` (or the creation of the engine)
-comes after the last `fire_all`, and for rule sets whose nodes are false on facts of a foreign type (`hproper`; it can fail only
-for a node that is true when its field is missing, e.g. `!(T.x > 5)`: after some rule has fired, the re-propagation of
-`fire_all` evaluates every rule on the facts of every type, so such a rule can also fire for a fact of another type — a firing
-the main theorem allows under "no other" but does not demand under "every"):
-the rules `fire_all` fires are exactly — and each exactly once — the rules whose node is true on the current contents of some
-live fact. -/
+comes after the last `fire_all` (so that no rule has fired since the last reset): the rules `fire_all` fires are exactly — and
+each exactly once — the rules whose node is true on the current contents of some live fact of the rule's type.
+(Before fix-C06c this needed the extra hypothesis that no node is true on a fact of a foreign type: the re-propagation inside
+`fire_all` evaluated every rule on the facts of every type, and `!(T.x > 5)` is true when `T.x` is missing.) -/
 theorem quiescent_fire_all_exact_iff (rules : List Rule) (ops touch : List Op)
     (hq : quietRules rules = true) (hn : (rules.map (·.name)).Nodup)
-    (hwf : ∀ o ∈ ops ++ touch, o.WF) (ht : ∀ o ∈ touch, o ≠ .fire)
-    (hproper : ∀ r ∈ rules, ∀ ty d, ty ≠ r.ty → r.node.eval ty d = false) :
+    (hwf : ∀ o ∈ ops ++ touch, o.WF) (ht : ∀ o ∈ touch, o ≠ .fire) :
     let e1 := (({ rules := rules } : Engine).run ops).reset
     let e0 := e1.run touch
     (∀ f ∈ e0.wm.getAllFacts, e1.wm.nextId ≤ f.handle ∨ ∃ d, Op.update f.handle d ∈ touch) →
-    e0.ag.acts.length + rules.length ≤ 1000 →
+    rules.length ≤ 1000 →
     let fired := e0.fireAll.2.map (·.rule)
     fired.Nodup ∧
-    ∀ r ∈ rules, (r.name ∈ fired ↔ ∃ f ∈ e0.wm.getAllFacts, r.node.eval f.ty f.data = true) := by
+    ∀ r ∈ rules, (r.name ∈ fired ↔ ∃ f ∈ e0.wm.getAllFacts, f.ty = r.ty ∧ r.node.eval f.ty f.data = true) := by
   intro e1 e0 hfresh hbound fired
   have hQ := quiet_of hq
   have he1 : e1 = ({ rules := rules } : Engine).run (ops ++ [.reset]) := by rw [run_append]; rfl
@@ -209,7 +227,7 @@ theorem quiescent_fire_all_exact_iff (rules : List Rule) (ops touch : List Op)
   constructor
   · intro hf
     obtain ⟨x, hx, hxr⟩ := List.mem_map.1 hf
-    obtain ⟨r', hr', f, hfl, h1, _, _, h4⟩ := m4 x hx
+    obtain ⟨r', hr', f, hfl, h1, _, _, h3, h4⟩ := m4 x hx
     have : r' = r := by
       have h5 := find_rule_of_mem rules r' hn hr'
       have h6 := find_rule_of_mem rules r hn hr
@@ -217,13 +235,9 @@ theorem quiescent_fire_all_exact_iff (rules : List Rule) (ops touch : List Op)
       rw [h6] at h5
       simpa using h5.symm
     subst this
-    exact ⟨f, hfl, h4⟩
-  · rintro ⟨f, hfl, hev⟩
-    apply m3 r hr (by rw [hnil]; simp)
-    refine ⟨f, hfl, ?_, hev⟩
-    by_cases hty : f.ty = r.ty
-    · exact hty
-    · rw [hproper r hr f.ty f.data hty] at hev; simp at hev
+    exact ⟨f, hfl, h3, h4⟩
+  · rintro ⟨f, hfl, hty, hev⟩
+    exact m3 r hr (by rw [hnil]; simp) ⟨f, hfl, hty, hev⟩
 
 /-- the exactness clause for the loop run with bound `B` WITHOUT the size hypothesis (`fire_all` is `B = 1000`) -/
 def quiescent_fire_all_exact_no_size_hypothesis (B : Nat) : Prop :=
@@ -236,32 +250,44 @@ def quiescent_fire_all_exact_no_size_hypothesis (B : Nat) : Prop :=
       (∃ f ∈ e0.wm.getAllFacts, f.ty = r.ty ∧ r.node.eval f.ty f.data = true) → r.name ∈ (fireLoop B e0 []).2.map (·.rule)
 
 def adult : Rule := { name := 0, ty := 0, node := .alpha 0 0 .gt (.lit (.int 18)), prio := 0, noLoop := true }
+def grownUp : Rule := { name := 1, ty := 0, node := .alpha 0 0 .ge (.lit (.int 21)), prio := 0, noLoop := true }
 
-/-- `B + 1` activations of fact 1 (one insert, `B` updates), fact 1 retracted, a second adult inserted: the stale activations
-are older, so they are popped first and use up the iterations -/
-def staleHistory (B : Nat) : List Op :=
-  [.insert 0 [(0, .int 25)]] ++ List.replicate B (.update 1 [(0, .int 25)]) ++ [.retract 1, .insert 0 [(0, .int 30)]]
-
-/-- **the size hypothesis is needed**: with more stale pending activations than the iteration bound, the loop stops at the bound
-before it reaches the activation of the live fact, and the satisfied rule does not fire.  Kernel-evaluated for `B = 3`; the same
-history with `B = 1000` makes `fire_all` itself return `[]` (checked once with `decide +kernel`, 4.4 min — not part of the
-build). -/
-theorem quiescent_fire_all_exact_no_size_hypothesis_counterexample : ¬ quiescent_fire_all_exact_no_size_hypothesis 3 := by
+/-- **a size hypothesis is still needed** (the bound itself): with more satisfied rules than executions allowed, the last ones do
+not fire — two rules, one fact that satisfies both, bound 1.  (For `fire_all` this takes more than 1000 satisfied rules.) -/
+theorem quiescent_fire_all_exact_no_size_hypothesis_counterexample : ¬ quiescent_fire_all_exact_no_size_hypothesis 1 := by
   intro h
-  have hfacts : ((({ rules := [adult] } : Engine).run []).run (staleHistory 3)).wm.getAllFacts =
-      [{ handle := 2, ty := 0, data := [(0, .int 30)] }] := by decide +kernel
-  have := h [adult] [] (staleHistory 3) (by decide) (by decide) (by decide) (by decide)
+  have hfacts : ((({ rules := [adult, grownUp] } : Engine).run []).run [.insert 0 [(0, .int 25)]]).wm.getAllFacts =
+      [{ handle := 1, ty := 0, data := [(0, .int 25)] }] := by decide +kernel
+  have := h [adult, grownUp] [] [.insert 0 [(0, .int 25)]] (by decide) (by decide) (by decide) (by decide)
     (by
       intro f hf
       rw [hfacts] at hf
       simp only [List.mem_singleton] at hf
       subst hf
       exact Or.inl (by decide))
-    adult (by simp) (by decide +kernel) (by rw [hfacts]; exact ⟨_, List.mem_singleton.2 rfl, by decide⟩)
+    grownUp (by simp) (by decide +kernel) (by rw [hfacts]; exact ⟨_, List.mem_singleton.2 rfl, by decide⟩)
   revert this
   decide +kernel
 
+/-- `B + 1` activations of fact 1 (one insert, `B` updates), fact 1 retracted, a second adult inserted: the stale activations
+are older, so they are popped first -/
+def staleHistory (B : Nat) : List Op :=
+  [.insert 0 [(0, .int 25)]] ++ List.replicate B (.update 1 [(0, .int 25)]) ++ [.retract 1, .insert 0 [(0, .int 30)]]
+
+/-- F-C06b's history shape on the model of the fixed code: more stale activations than the bound no longer starve the live
+fact's activation (before fix-C06b the loop with bound 3 returned `[]` here, and `fire_all` returned `[]` on `staleHistory 1000`,
+see corpus/C06) -/
+example : (fireLoop 3 (({ rules := [adult] } : Engine).run (staleHistory 3)) []).2.map (fun x => (x.rule, x.handle)) = [(0, 2)] := by
+  decide +kernel
+example : ((({ rules := [adult] } : Engine).run (staleHistory 40)).fireAll).2.map (fun x => (x.rule, x.handle)) = [(0, 2)] := by
+  decide +kernel
+
 /-! Non-vacuity, and the defect in proof form. -/
+
+/-- F-C06c's history on the model of the fixed code: `!(T0.f0 > 18)` is vacuously true on the T1 fact, but the rule depends on T0
+only, so after `adult` has fired the re-propagation no longer matches it against the T1 fact (the unfixed code fired both) -/
+example : ((({ rules := [adult, { name := 1, ty := 0, node := .not (.alpha 0 0 .gt (.lit (.int 18))), prio := 0, noLoop := true }] } : Engine).run
+    [.insert 0 [(0, .int 25)], .insert 1 [(0, .int 1)]]).fireAll).2.map (·.rule) = [0] := by decide +kernel
 
 /-- F-C06's history on the model of the fixed code: insert age=25, update age=15, fire_all — nothing fires -/
 example : ((({ rules := [adult] } : Engine).run [.insert 0 [(0, .int 25)], .update 1 [(0, .int 15)]]).fireAll).2 = [] := by
@@ -284,21 +310,14 @@ example :
     let e1 := (({ rules := [adult, minor] } : Engine).run exOps).reset
     let e0 := e1.run exTouch
     quietRules [adult, minor] = true ∧ ([adult, minor].map (·.name)).Nodup ∧ (∀ o ∈ exOps ++ exTouch, o.WF) ∧
-    (∀ o ∈ exTouch, o ≠ .fire) ∧ (∀ r ∈ [adult, minor], ∀ ty d, ty ≠ r.ty → r.node.eval ty d = false) ∧
+    (∀ o ∈ exTouch, o ≠ .fire) ∧
     (∀ f ∈ e0.wm.getAllFacts, e1.wm.nextId ≤ f.handle ∨ ∃ d, Op.update f.handle d ∈ exTouch) ∧
     e0.ag.acts.length = 4 ∧ e0.wm.getAllHandles = [1, 2] ∧
     (({ rules := [adult, minor] } : Engine).run exOps).ag.fired = [0] ∧ e0.fireAll.2.map (·.rule) = [1] := by
   intro e1 e0
   have hfacts : e0.wm.getAllFacts = [{ handle := 1, ty := 0, data := [(0, .int 15)] }, { handle := 2, ty := 1, data := [(1, .bool true)] }] := by
     decide +kernel
-  refine ⟨by decide, by decide, by decide, by decide, ?_, ?_, by decide +kernel, by decide +kernel, by decide +kernel, by decide +kernel⟩
-  · intro r hr ty d hty
-    simp only [List.mem_cons, List.not_mem_nil, or_false] at hr
-    rcases hr with rfl | rfl
-    · have : ¬ 0 = ty := fun h => hty (by simp [adult, ← h])
-      simp [adult, Node.eval, this]
-    · have : ¬ 0 = ty := fun h => hty (by simp [minor, ← h])
-      simp [minor, Node.eval, this]
+  refine ⟨by decide, by decide, by decide, by decide, ?_, by decide +kernel, by decide +kernel, by decide +kernel, by decide +kernel⟩
   · intro f hf
     rw [hfacts] at hf
     simp only [List.mem_cons, List.not_mem_nil, or_false] at hf
